@@ -368,6 +368,36 @@ def TcState.coding (st : TcState) (cdsStart cdsEnd : Int) : Coding :=
 def layout (st : TcState) (cdsStart cdsEnd : Int) : Except Panic TF × TF × Except Panic TF :=
   (utr5 (st.coding cdsStart cdsEnd), cds (st.coding cdsStart cdsEnd), utr3 (st.coding cdsStart cdsEnd))
 
+/-! ### the memoised base orientation of seeded change C20-m5 (kept for the refutation witness only)
+
+The seeded change gives `CodingTranscript` a field that remembers the base orientation together with
+the `Loc` and `Orient` it was computed for; `UTR5` / `UTR3` call `baseOrientation()`, which walks the
+chain again only if nothing is remembered or `t.Loc` / `t.Orient` are not the remembered ones. -/
+
+structure OriMemo where
+  loc : Option Nat     -- identity of the remembered `t.Loc` (`none`: nil)
+  orient : Int         -- the remembered `t.Orient`
+  ori : Int            -- the remembered base orientation (0: nothing remembered)
+  deriving DecidableEq, Repr
+
+def OriMemo.empty : OriMemo := ⟨none, 0, 0⟩
+
+def memoBaseOrientation (m : OriMemo) (node : Node) (loc : Chain) : OriMemo × Except Panic Int :=
+  if m.ori = 0 ∨ m.loc ≠ Biogo.Feat.headId loc ∨ m.orient ≠ node.ori then
+    match Biogo.Feat.baseOrientationOf (node :: loc) with
+    | .ok (o, _) => (⟨Biogo.Feat.headId loc, node.ori, o⟩, .ok o)
+    | .error p => (m, .error p)
+  else (m, .ok m.ori)
+
+/-- `UTR5` with the memoised orientation: the memo afterwards and the answer -/
+def utr5Memo (m : OriMemo) (t : Coding) : OriMemo × Except Panic TF :=
+  match memoBaseOrientation m t.node t.loc with
+  | (m', .error p) => (m', .error p)
+  | (m', .ok o) =>
+    if o = 1 then (m', .ok (0, t.cdsStart))
+    else if o = -1 then (m', .ok (t.cdsEnd, t.len - t.cdsEnd))
+    else (m', .error .badOrient)
+
 /-! ### Gene.SetFeatures -/
 
 structure FeatIv where
